@@ -143,7 +143,28 @@ def comparison_raise_shape() -> str:
     return "skip"                # some raising side is skipped
 
 
+def comparison_values_binary() -> None:
+    """the model takes the value of one comparison combination to be 0.0 or 1.0 (`Fit.dist : List Bool`; C02's float
+    theorem `valueF_le_defect` needs it).  That holds of the source exactly while `_distance_norm` never returns a
+    number: its type test `dist is float | int` is always false.  Any other text (in particular a repaired test) is
+    refused: a distance-aware value 1 - 2*(sigmoid(d) - 0.5) can ROUND to 1.0 for a failed comparison."""
+    mod = parse_file("constraints/comparison.py")
+    fn = find_func(mod, "_distance_norm")
+    tests = [ast.unparse(n.test) for n in ast.walk(fn) if isinstance(n, ast.If)]
+    rets = [ast.unparse(n.value) if n.value is not None else "None" for n in ast.walk(fn) if isinstance(n, ast.Return)]
+    if tests != ["dist is float | int"] or sorted(rets) != ["None", "None", "dist"]:
+        raise Refusal("_distance_norm can return a number now (tests " + repr(tests) + ", returns " + repr(rets)
+                      + "): comparison values are no longer 0.0 / 1.0, the model (Fit.dist : List Bool) does not cover them")
+    cls = find_class(mod, "ComparisonConstraint")
+    uses = [ast.unparse(n) for n in ast.walk(cls) if isinstance(n, ast.Assign)
+            and any(isinstance(c, ast.Call) and isinstance(c.func, ast.Name) and c.func.id == "_distance_norm"
+                    for c in ast.walk(n.value))]
+    if uses != ["dist_norm = _distance_norm(left, right)"]:
+        raise Refusal(f"ComparisonConstraint uses _distance_norm differently: {uses}")
+
+
 def read_config() -> dict[str, Any]:
+    comparison_values_binary()
     b1 = quantifier_binding("constraints/forall.py", "ForallConstraint")
     b2 = quantifier_binding("constraints/exists.py", "ExistsConstraint")
     if b1 != b2:
